@@ -168,36 +168,51 @@ def enumFrom (start : Int) : List (Int × Attrs) → List (Int × Attrs)
   | [] => []
   | (_, a) :: rest => (start, a) :: enumFrom (start + 1) rest
 
+/-- `if self.nrexcl is None and not self: self.nrexcl = molecule.nrexcl` -/
+def mergeNrexcl (self other : Mol) : Option Int :=
+  if self.nrexcl.isNone && self.nodes.isEmpty then other.nrexcl else self.nrexcl
+
+/-- `if self.max_node is None: self.max_node = max(self)`; then `self.max_node` -/
+def Mol.lastKey (self : Mol) : Option Int :=
+  match self.maxNode with
+  | some k => some k
+  | none => maxKey self.keys
+
+/-- (key offset, resid offset, charge-group offset); `none` = KeyError on a stale cache
+(unreachable, see `merge_outcome`) -/
+def Mol.mergeOffs (self : Mol) : Option (Int × Int × Int) :=
+  if self.nodes.isEmpty then some (0, 0, 0)
+  else
+    match self.lastKey with
+    | none => none
+    | some last =>
+      match lookupAttrs self.nodes last with
+      | none => none
+      | some a => some (last, a.resid.getD 1, a.cg.getD 1)
+
+/-- the body of `merge_molecule` once nrexcl and the offsets are known -/
+def Mol.mergeCore (self other : Mol) (nrexcl : Option Int) (offset roff coff : Int) : Mol × Outcome :=
+  let okeys := other.keys
+  let newNodes := enumFrom (offset + 1)
+    (other.nodes.map (fun p => (p.1, p.2.shift roff coff)))
+  match renameInters okeys offset other.inters, renameEdges okeys offset other.edges with
+  | some ri, some re =>
+    let m1 : Mol := { self with nrexcl := nrexcl,
+                                nodes := newNodes.foldl (fun ns p => upsert ns p.1 p.2) self.nodes }
+    -- add_interaction validates the atoms (all are new nodes)
+    let m2 : Mol := { m1 with inters := m1.inters ++ ri }
+    let m3 : Mol := re.foldl (fun m e => m.addEdge e.1 e.2) m2
+    ({ m3 with cites := unionSet self.cites other.cites,
+               maxNode := some (offset + (other.nodes.length : Int)) }, .ok)
+  | _, _ => (self, .keyerror)              -- dangling atom in `other` (unreachable under the invariant)
+
 /-- `self.merge_molecule(other)` -/
 def Mol.merge (self other : Mol) : Mol × Outcome :=
-  let nrexcl := if self.nrexcl.isNone && self.nodes.isEmpty then other.nrexcl else self.nrexcl
+  let nrexcl := mergeNrexcl self other
   if nrexcl ≠ other.nrexcl then (self, .valueerror) else
-  -- offsets
-  let offs : Option (Int × Int × Int) :=
-    if self.nodes.isEmpty then some (0, 0, 0)
-    else
-      match (match self.maxNode with | some k => some k | none => maxKey self.keys) with
-      | none => none
-      | some last =>
-        match lookupAttrs self.nodes last with
-        | none => none                       -- KeyError: stale cache (unreachable, see `cache_ok`)
-        | some a => some (last, a.resid.getD 1, a.cg.getD 1)
-  match offs with
+  match self.mergeOffs with
   | none => (self, .keyerror)
-  | some (offset, roff, coff) =>
-    let okeys := other.keys
-    let newNodes := enumFrom (offset + 1)
-      (other.nodes.map (fun p => (p.1, p.2.shift roff coff)))
-    match renameInters okeys offset other.inters, renameEdges okeys offset other.edges with
-    | some ri, some re =>
-      let m1 : Mol := { self with nrexcl := nrexcl,
-                                  nodes := newNodes.foldl (fun ns p => upsert ns p.1 p.2) self.nodes }
-      -- add_interaction validates the atoms (all are new nodes)
-      let m2 : Mol := { m1 with inters := m1.inters ++ ri }
-      let m3 : Mol := re.foldl (fun m e => m.addEdge e.1 e.2) m2
-      ({ m3 with cites := unionSet self.cites other.cites,
-                 maxNode := some (offset + (other.nodes.length : Int)) }, .ok)
-    | _, _ => (self, .keyerror)              -- dangling atom in `other` (unreachable under the invariant)
+  | some (offset, roff, coff) => self.mergeCore other nrexcl offset roff coff
 
 /-! ### Blocks (string node names) -/
 
@@ -215,20 +230,27 @@ def nameIdx (names : List String) (off : Int) (n : String) : Option Int :=
   | some i => some (off + (i : Int))
   | none => none
 
+def blockInter (names : List String) (off : Int) (x : String × List String × String × Int) :
+    Option (String × Inter) :=
+  match x.2.1.mapM (nameIdx names off) with
+  | some a => some (x.1, { atoms := a, params := x.2.2.1, version := x.2.2.2 })
+  | none => none
+
+def blockEdge (names : List String) (off : Int) (e : String × String) : Option (Int × Int) :=
+  match nameIdx names off e.1, nameIdx names off e.2 with
+  | some u, some v => some (u, v)
+  | _, _ => none
+
 /-- `Block.to_molecule(atom_offset, offset_resid, offset_charge_group)`; `none` = KeyError. -/
-def Block.toMolecule (b : Block) (atomOff residOff cgOff : Int) : Option Mol := do
+def Block.toMolecule (b : Block) (atomOff residOff cgOff : Int) : Option Mol :=
   let names := b.nodes.map Prod.fst
   let nodes := enumFrom atomOff
     (b.nodes.map (fun p => ((0 : Int), p.2.shift residOff cgOff)))
-  let inters ← b.inters.mapM (fun (t, ats, pr, v) => do
-      let a ← ats.mapM (nameIdx names atomOff)
-      pure (t, ({ atoms := a, params := pr, version := v } : Inter)))
-  let edges ← b.edges.mapM (fun (u, v) => do
-      let u' ← nameIdx names atomOff u
-      let v' ← nameIdx names atomOff v
-      pure (u', v'))
-  let m0 : Mol := { nodes := nodes, inters := inters, cites := b.cites, nrexcl := b.nrexcl }
-  pure (edges.foldl (fun m e => m.addEdge e.1 e.2) m0)
+  match b.inters.mapM (blockInter names atomOff), b.edges.mapM (blockEdge names atomOff) with
+  | some inters, some edges =>
+    let m0 : Mol := { nodes := nodes, inters := inters, cites := b.cites, nrexcl := b.nrexcl }
+    some (edges.foldl (fun m e => m.addEdge e.1 e.2) m0)
+  | _, _ => none
 
 /-! ### The pool state machine -/
 
